@@ -284,20 +284,23 @@ def allSome {β : Type} : List (Option β) → Option (List β)
   | none :: _ => none
   | some a :: r => (allSome r).map (a :: ·)
 
+/-- _matrix_eqn.py 300-304: the two summands for one `j`: `beta*Pi[i,j]*A'P_jA` and
+    `Pi[i,j]*(beta*A'P_jB + N')*solve(Q + beta*B'P_jB, beta*B'P_jA + N)` -/
+def markovTerm (sol : M α → M α → Option (M α)) (lq : LQ α) (beta pij : α) (Pj : M α) : Option (M α × M α) :=
+  match sol (madd lq.Q (smul beta (mmul (mmul (mT lq.B) Pj) lq.B)))
+            (madd (smul beta (mmul (mmul (mT lq.B) Pj) lq.A)) lq.N) with
+  | none => none
+  | some X =>
+    some (smul (beta * pij) (mmul (mmul (mT lq.A) Pj) lq.A),
+          smul pij (mmul (madd (smul beta (mmul (mmul (mT lq.A) Pj) lq.B)) (mT lq.N)) X))
+
 /-- _matrix_eqn.py 295-306: new `Ps1[i]` for regime `i` (regimes share `beta`; `Pi` is `m × m`) -/
 def markovStepI (sol : M α → M α → Option (M α)) (Pi : M α) (lqs : List (LQ α)) (beta : α)
     (Ps : List (M α)) (i : Nat) : Option (M α) :=
   let m := lqs.length
   let lq := lqs.getD i ⟨nth [] 0, nth [] 0, nth [] 0, nth [] 0, nth [] 0, nth [] 0, 0⟩
   let n := lq.R.nr
-  let terms := (List.range m).map fun j =>
-    let Pj := nth Ps j
-    match sol (madd lq.Q (smul beta (mmul (mmul (mT lq.B) Pj) lq.B)))
-              (madd (smul beta (mmul (mmul (mT lq.B) Pj) lq.A)) lq.N) with
-    | none => none
-    | some X =>
-      some (smul (beta * Pi.get i j) (mmul (mmul (mT lq.A) Pj) lq.A),
-            smul (Pi.get i j) (mmul (madd (smul beta (mmul (mmul (mT lq.A) Pj) lq.B)) (mT lq.N)) X))
+  let terms := (List.range m).map fun j => markovTerm sol lq beta (Pi.get i j) (nth Ps j)
   match allSome terms with
   | none => none
   | some ts =>
